@@ -4,6 +4,7 @@ CONSTANTS
   MaxItems = 3
   MaxTargets = 1
   MaxOdd = 0
+  Stretching = FALSE
 INVARIANT EmitB
 INVARIANT RoundTrip
 CHECK_DEADLOCK FALSE
